@@ -1,4 +1,5 @@
 //! stack-sim, part 3: C12 — after a reload returns, every thread filters with the new value.
+use crate::driver::finding_open;
 use crate::fw::*;
 use crate::reclayer::{self, LRec, RecLayer};
 use crate::sites;
@@ -62,8 +63,14 @@ fn lvl_num(l: LevelFilter) -> i64 {
 }
 
 fn do_reload(v: &Value, via_modify: bool) -> (bool, bool) {
-    // take the handle out so that no harness lock is held while code under test runs
-    let h = HANDLE.lock().unwrap().take();
+    // a clone of the handle, so that no harness lock is held while code under test runs and several threads
+    // can reload at once
+    let h = match &*HANDLE.lock().unwrap() {
+        Some(Handles::G0(h)) => Some(Handles::G0(h.clone())),
+        Some(Handles::G1(h)) => Some(Handles::G1(h.clone())),
+        Some(Handles::F(h)) => Some(Handles::F(h.clone())),
+        None => None,
+    };
     let r = match &h {
         Some(Handles::G0(h)) => {
             let nv: G0 = if v.is_null() { None } else { Some(stack::build_global::<Registry>(v)) };
@@ -98,7 +105,6 @@ fn do_reload(v: &Value, via_modify: bool) -> (bool, bool) {
         Ok(()) => (true, false),
         Err(e) => (false, e.is_dropped()),
     };
-    *HANDLE.lock().unwrap() = h;
     out
 }
 
@@ -109,8 +115,14 @@ fn exec_step(gi: usize, t: usize, s: &Value, record_max: bool) {
     let mut h = H { gi, t, op: op.clone(), site, uid, maxlvl: -1, ..Default::default() };
     h.inv = detsim::stamp();
     match op.as_str() {
-        "event" => sites::emit_event(site, uid),
-        "span" => drop(sites::make_span(site, uid)),
+        "event" => {
+            sites::emit_event(site, uid);
+            h.maxlvl = lvl_num(LevelFilter::current());
+        }
+        "span" => {
+            drop(sites::make_span(site, uid));
+            h.maxlvl = lvl_num(LevelFilter::current());
+        }
         "reload" => {
             h.value = s["v"].clone();
             let (ok, de) = do_reload(&s["v"], s["modify"].as_bool().unwrap_or(false));
@@ -163,8 +175,21 @@ impl Engine for ReloadEngine {
     fn props(&self) -> &'static [&'static str] {
         &["C12"]
     }
+    fn modes(&self, _p: &str) -> Vec<String> {
+        let mut m = vec!["must".to_string()];
+        if finding_open("F24") {
+            m.push("probe:F24".into());
+        }
+        m
+    }
+    fn classify_known(&self, plan: &Value, res: &RunResult) -> Option<String> {
+        if plan["mode"] == "probe:F24" && finding_open("F24") && res.detail.contains("[F24-signature]") {
+            return Some("F24 a rebuild of the max level that overlaps a reload between None and Some(..) reads the None layer's OFF hint and the \"is none\" marker under two separate lock acquisitions: the global max level is OFF until the racing reload's own rebuild finishes".into());
+        }
+        None
+    }
     fn rule(&self, _p: &str) -> String {
-        "reload handle around a global filter layer (inner or outer of the recording layer) or around a per-layer filter; <=6 reloads/modifies between {None, level, Targets table, EnvFilter directives, static closure} interleaved with <=30 emissions from the callsite pool on 2-3 threads, as total orders (op granularity) and under seeded schedules (sync granularity: lock shim, callsite-registry lock, every interest/MAX_LEVEL atomic); non-trivial = some callsite was delivered before a reload and suppressed after it (or vice versa) and at least one emission overlapped or followed a reload on another thread; distinct = distinct (plan, schedule digest)".into()
+        "reload handle around a global filter layer (inner or outer of the recording layer) or around a per-layer filter; <=6 reloads/modifies between {None, level, Targets table, EnvFilter directives, static closure} interleaved with <=30 emissions from the callsite pool on 2-3 threads, the reloads coming from one thread or (half of the scheduled runs) from any thread so that reloads overlap each other, as total orders (op granularity) and under seeded schedules (sync granularity: lock shim, callsite-registry lock, every interest/MAX_LEVEL atomic); non-trivial = some callsite was delivered before a reload and suppressed after it (or vice versa) and at least one emission overlapped or followed a reload on another thread; distinct = distinct (plan, schedule digest)".into()
     }
     fn components(&self) -> Value {
         json!({"real": ["tracing_subscriber::reload::{Subscriber, Handle}", "Registry + Layered + Filtered", "callsite::rebuild_interest_cache", "tracing macros"], "stub": ["parking_lot RwLock (cooperative)", "recording layer"]})
@@ -175,6 +200,21 @@ impl Engine for ReloadEngine {
         let sync = rng.chance(1, 2);
         let nthreads = rng.range(2, 3);
         let nreloads = rng.range(1, 6);
+        let probe_f24 = g.mode == "probe:F24";
+        let sync = sync || probe_f24;
+        let multi_reloader = (sync && rng.chance(1, 2)) || probe_f24;
+        let mode = if probe_f24 { *rng.pick(&["g0", "g1"]) } else { mode };
+        // while F24 is open, must-hold runs with overlapping reloads never use the `None` value (the trigger is a
+        // rebuild overlapping a None <-> Some reload of a global layer); the probe configuration uses it often
+        let no_null = multi_reloader && finding_open("F24") && !probe_f24;
+        let gen_value = |rng: &mut Rng| -> Value {
+            loop {
+                let v = if probe_f24 && rng.chance(1, 2) { Value::Null } else { gen_value(rng) };
+                if !(no_null && v.is_null()) {
+                    return v;
+                }
+            }
+        };
         let nemit = rng.range(4, if g.tier == "thorough" { 30 } else { 20 });
         let pool: Vec<u64> = (0..rng.range(2, 6)).map(|_| rng.below(20)).collect();
         let mut steps = vec![];
@@ -184,7 +224,9 @@ impl Engine for ReloadEngine {
             let remaining = total - i;
             if reloads_left > 0 && rng.below(remaining) < reloads_left {
                 reloads_left -= 1;
-                steps.push(json!({"t": 0, "op": "reload", "v": gen_value(&mut rng), "modify": rng.chance(1, 2)}));
+                // under seeded schedules half of the runs reload from any thread, so reloads overlap each other
+                let rt = if multi_reloader { rng.below(nthreads) } else { 0 };
+                steps.push(json!({"t": rt, "op": "reload", "v": gen_value(&mut rng), "modify": rng.chance(1, 2)}));
             } else {
                 steps.push(json!({"t": rng.below(nthreads), "op": if rng.chance(1, 4) { "span" } else { "event" }, "site": *rng.pick(&pool)}));
             }
@@ -298,7 +340,10 @@ fn oracle(sync: bool, initial: &Value, hist: &[H], log: &[LRec]) {
         let mut allowed: Vec<&Value> = vec![];
         for (i, (inv, _ret, v)) in values.iter().enumerate() {
             let started_before_end = *inv < h.ret;
-            let superseded = values.get(i + 1).map_or(false, |n| n.1 < h.inv);
+            // (reloads may come from several threads and overlap: a value is out of the picture once a reload
+            // that began after it had returned has itself returned before the emission began)
+            let my_ret = values[i].1;
+            let superseded = values.iter().enumerate().any(|(j, n)| j != i && my_ret < n.0 && n.1 < h.inv);
             if started_before_end && !superseded {
                 allowed.push(v);
             }
@@ -313,7 +358,14 @@ fn oracle(sync: bool, initial: &Value, hist: &[H], log: &[LRec]) {
         let ok = allowed.iter().any(|v| eval(v, h.site) == delivered);
         if !ok {
             let class = if allowed.len() == 1 { "stale-after-return" } else { "neither-old-nor-new" };
-            violation(class, format!("emission {} (t{}, {} at site {} = level {} target {}) was {} but the value(s) in effect {:?} all say otherwise", h.gi, h.t, h.op, h.site, sites::SITES[h.site].0, sites::TARGETS[sites::SITES[h.site].1 as usize], if delivered { "delivered" } else { "suppressed" }, allowed));
+            // F24: the global max level is OFF although no value in the whole history asks for that, and a `None`
+            // value took part
+            // (the OFF state heals when the racing reload's rebuild ends, so a reading of the max level taken
+            // around the emission is only corroborating: the signature is the shape of the history)
+            let overlapping_reloads = values.iter().enumerate().any(|(i, a)| values.iter().enumerate().any(|(j, b)| i != j && i > 0 && j > 0 && a.0 < b.1 && b.0 < a.1));
+            let f24 = !delivered && values.iter().any(|v| v.2.is_null()) && overlapping_reloads;
+            let _ = h.maxlvl;
+            violation(class, format!("emission {} (t{}, {} at site {} = level {} target {}) was {} but the value(s) in effect {:?} all say otherwise{}", h.gi, h.t, h.op, h.site, sites::SITES[h.site].0, sites::TARGETS[sites::SITES[h.site].1 as usize], if delivered { "delivered" } else { "suppressed" }, allowed, if f24 { " [F24-signature]" } else { "" }));
             return;
         }
         if let Some(prev) = verdicts.insert(h.site, delivered) {
